@@ -14,7 +14,10 @@ Definition near_edges (ns : list graph) : list edge := flat_map (fun ng => nonli
 Definition near_roots (ns : list graph) : list tree := flat_map g_roots ns.
 Definition path0 (g0 : graph) (i : N) : okey := path_f i (g_roots g0).
 
-Definition piece_ok (g : graph) : Prop := Permutation (g_objs g) (fids (g_roots g)).
+Definition piece_ok (g : graph) : Prop :=
+  Permutation (g_objs g) (fids (g_roots g)) /\
+  (forall e, In e (nonlife (g_edges g)) -> In (e_src e) (g_objs g) /\ In (e_dst e) (g_objs g)).
+Definition near_f (g : graph) : Prop := forallb root_near_ok (g_roots g) = true.
 Definition near_piece (ng : graph) : Prop :=
   piece_ok ng /\ exists t c, g_roots ng = [t] /\ k_near (t_kind t) = Some c /\ (c < 3)%N.
 Definition x_ok (g0 : graph) (x : xedge) : Prop :=
@@ -31,9 +34,13 @@ Record inv (g0 g : graph) (ext : list (okey * graph)) (xs : list xedge) (nears :
   iv_piece_near : Forall near_piece nears;
   iv_edges : Permutation (nonlife (g_edges g) ++ ext_edges ext ++ near_edges nears ++ map x_e xs) (nonlife (g_edges g0));
   iv_x : Forall (x_ok g0) xs;
-  iv_extp : Forall2 (fun c pe => fst pe = path0 g0 c /\ In c (fids (g_roots g))) cs ext;
-  iv_ends : forall e, In e (nonlife (g_edges g)) -> In (e_src e) (g_objs g) /\ In (e_dst e) (g_objs g);
-  iv_near_f : forallb root_near_ok (g_roots g) = true }.
+  iv_extp : Forall2 (fun c pe => fst pe = path0 g0 c /\ In c (fids (g_roots g))) cs ext }.
+
+Lemma iv_perm g0 g ext xs nears cs : inv g0 g ext xs nears cs -> Permutation (g_objs g) (fids (g_roots g)).
+Proof. intro I. apply (iv_piece _ _ _ _ _ _ I). Qed.
+Lemma iv_ends g0 g ext xs nears cs : inv g0 g ext xs nears cs ->
+  forall e, In e (nonlife (g_edges g)) -> In (e_src e) (g_objs g) /\ In (e_dst e) (g_objs g).
+Proof. intro I. apply (iv_piece _ _ _ _ _ _ I). Qed.
 
 Definition qinv (g0 g : graph) (cs : list N) (queue : list N) : Prop :=
   exists qts, Forall2 (fun q tq => find_f q (g_roots g) = Some tq /\ find_f q (g_roots g0) = Some tq) queue qts
@@ -71,11 +78,11 @@ Section Derived.
   Proof. eapply NoDup_app_l. apply inv_nd_all. Qed.
 
   Lemma inv_nd : NoDup (fids (g_roots g)).
-  Proof. eapply Permutation_NoDup; [apply (iv_piece _ _ _ _ _ _ I) | apply inv_nd_objs]. Qed.
+  Proof. eapply Permutation_NoDup; [apply (iv_perm _ _ _ _ _ _ I) | apply inv_nd_objs]. Qed.
 
   Lemma inv_obj_in i : In i (g_objs g) <-> In i (fids (g_roots g)).
   Proof.
-    split; intro H; eapply Permutation_in; try exact H; [apply (iv_piece _ _ _ _ _ _ I) | symmetry; apply (iv_piece _ _ _ _ _ _ I)].
+    split; intro H; eapply Permutation_in; try exact H; [apply (iv_perm _ _ _ _ _ _ I) | symmetry; apply (iv_perm _ _ _ _ _ _ I)].
   Qed.
 
   Lemma inv_obj_sub i : In i (g_objs g) -> In i (g_objs g0).
@@ -118,20 +125,23 @@ Proof. intros H. induction 1; constructor; auto. Qed.
 (* ---------- the invariant only depends on the current graph up to order ---------- *)
 Lemma inv_geq g0 g g2 ext xs nears cs : inv g0 g ext xs nears cs -> geq g g2 -> inv g0 g2 ext xs nears cs.
 Proof.
-  intros I [HL PR PO PE]. destruct I as [I1 I2 [R [HF HP]] I4 I5 I6 I7 I8 I9 I10 I11 I12].
+  intros I [HL PR PO PE]. destruct I as [I1 I2 [R [HF HP]] I4 [I5 I11] I6 I7 I8 I9 I10].
   constructor; try assumption.
   - congruence.
   - destruct (Forall2_perm _ _ _ PR _ HF) as [R2 [PR2 HF2]]. exists R2. split; [exact HF2|].
     rewrite <- HP. apply Permutation_app_tail. symmetry. exact PR2.
   - rewrite <- I4. apply Permutation_app_tail. symmetry. exact PO.
-  - unfold piece_ok in *. rewrite <- PO, I5. apply fids_perm. exact PR.
+  - split.
+    + rewrite <- PO, I5. apply fids_perm. exact PR.
+    + intros e He. assert (He' : In e (nonlife (g_edges g))) by (eapply Permutation_in; [symmetry; exact PE | exact He]).
+      destruct (I11 e He') as [H1 H2]. split; eapply Permutation_in; try exact PO; assumption.
   - rewrite <- I8. apply Permutation_app_tail. symmetry. exact PE.
   - eapply Forall2_impl; [|exact I10]. cbv beta. intros c pe [H1 H2]. split; [exact H1|].
     eapply Permutation_in; [apply fids_perm; exact PR | exact H2].
-  - intros e He. assert (He' : In e (nonlife (g_edges g))) by (eapply Permutation_in; [symmetry; exact PE | exact He]).
-    destruct (I11 e He') as [H1 H2]. split; eapply Permutation_in; try exact PO; assumption.
-  - eapply forallb_perm; eassumption.
 Qed.
+
+Lemma near_f_geq g g2 : near_f g -> geq g g2 -> near_f g2.
+Proof. intros H [_ PR _ _]. unfold near_f in *. eapply forallb_perm; eassumption. Qed.
 
 Lemma qinv_geq g0 g g2 cs queue : NoDup (fids (g_roots g)) -> Permutation (g_roots g) (g_roots g2) ->
   qinv g0 g cs queue -> qinv g0 g2 cs queue.
